@@ -18,7 +18,7 @@ RULE = (
     "stream (operands become exactly [valid_addr] vs unchanged; count, order, addresses unchanged) against the stream without the option, and through the rules "
     "call: [valid_addr] / jmp: [valid_addr] in all-matches address mode. Non-trivial: >= 1 target exactly on or adjacent to a bound; distinct by canonical hash."
 )
-ASSUMPTIONS = ["conditional jumps and the q-suffixed spellings callq/jmpq are not mentioned by the statement: whatever JASM does with them is accepted", "targets are hexadecimal as objdump prints them"]
+ASSUMPTIONS = ["conditional jumps are not mentioned by the statement: whatever JASM does with them is accepted; callq/jmpq are the direct call/jmp with their size suffix spelled out and are judged like call/jmp", "targets are hexadecimal as objdump prints them"]
 FLOORS = {"target=min": 0.15, "target=max": 0.15, "target=min-1": 0.15, "target=max+1": 0.15, "has-indirect": 0.2, "has-nonbranch-number": 0.2, "min=max": 0.05, "min=0": 0.06}
 
 
@@ -134,14 +134,16 @@ def evaluate(case):
             ev.dev("address-or-mnemonic-changed", plain=list(p), tagged=list(t))
             return ev
         is_tagged = t[2] == ["valid_addr"]
-        if i["kind"] == "direct":
+        if i["kind"] in ("direct", "q-suffixed"):
+            # callq / jmpq are the same direct call / jmp as older binutils and llvm-objdump print them (the repository's own
+            # listings contain both spellings)
             should = lo <= i["T"] <= hi
             if should != is_tagged:
                 ev.dev("wrong-tagging", instruction=[i["addr"], i["m"], i["ops"]], target=hex(i["T"]), range=case["range"], expected_tagged=should, observed=list(t))
                 return ev
-            if should:
+            if should and i["m"] in must:
                 must[i["m"]].append(i["addr"])
-        elif i["kind"] in ("cond", "q-suffixed"):
+        elif i["kind"] == "cond":
             if not is_tagged and t[2] != p[2]:
                 ev.dev("operands-changed", plain=list(p), tagged=list(t))
                 return ev
